@@ -15,7 +15,8 @@ THEOREMS = ["IsobarV.C05." + t for t in (
 RULE = ("(a) random histories with quantize/delay on schedule and update (explicit, timeline defaults, device latency), calls "
         "between ticks and from inside action callbacks, several updates before a tick; real Timeline vs Lean model; "
         "(b) direct grid oracle: schedule at call tick n with quantize qz / delay dl and compare the tick of the first note-on "
-        "with ceil((qz*ceil(n*q/qz) + dl)/q) in exact integers. non-trivial = quantize or delay or default or latency in play")
+        "with ceil((qz*ceil(n*q/qz) + dl)/q) in exact integers. non-trivial = quantize or delay or default or latency in play"
+        " Also (implementation-only oracles): interpolating tracks updated in mid-curve; grids after a rewind; deferred updates whose new events hold the very pattern object the old stream is reading (old stream untouched until the landing tick).")
 ASSUMPTIONS = ["a call made while tick n executes cannot act on tick n any more (due actions have already run): in-callback "
                "starts are compared against the model, which mirrors that order",
                "tempo is 120 so that latency seconds convert exactly to beats"]
